@@ -459,6 +459,8 @@ def plain_value(draw, ctx, allow_nonnumeric=True, symbolic=None):
     if symbolic:
         choices += ["sym", "sym", "sym"]
     k = draw(st.sampled_from(choices))
+    if k == "num" and draw(st.integers(0, 15)) == 0:
+        return F1(A.Num("float", draw(st.sampled_from(["0.0", "0e0", "0.00", "00.0"]))), draw(st.sampled_from(["", "-", "-"])))     # signed zeros
     if k == "num":
         return draw(num_expr(ctx))
     if k == "int":
@@ -646,6 +648,22 @@ def array_decl(draw, ctx, symbolic=None, name=None, max_rows=4, max_cols=5):
         sym = True
         if r * c == 1:
             c = 2      # a lone bare {p} is the whole-array form, which needs a declared shape
+    if symbolic == "params" and ctx.params and draw(st.integers(0, 5)) == 0:
+        # every element a parameter named like the entries of an array-valued parameter (u_0_0, u_0_1, ...), in another order
+        bases = [b for b in ["u", "w", "g_x", "U0"] if b not in ctx.used and not any(q == b or q.startswith(b + "_") for q in ctx.params)]
+        if bases:
+            b = draw(st.sampled_from(bases))
+            r2, c2 = draw(st.sampled_from([(1, 2), (2, 1), (2, 2), (1, 3), (2, 3), (3, 2)]))
+            idx = [(i, j) for i in range(r2) for j in range(c2)]
+            perm = draw(st.permutations(idx))
+            vt2 = draw(st.sampled_from(["float", "complex"]))
+            rows = [[F1(A.Param("%s_%d_%d" % ((b,) + perm[i * c2 + j]))) for j in range(c2)] for i in range(r2)]
+            ctx.used.add(b)
+            ctx.used.add(name)
+            for (i, j) in idx:
+                ctx.params.append("%s_%d_%d" % (b, i, j))
+            ctx.arrays[name] = (vt2, r2, c2, True)
+            return A.ArrayDecl(vt2, name, [str(r2), str(c2)] if with_shape else None, rows)
     twins = sorted(n for n, (t, rr, cc, sy) in ctx.arrays.items() if not sy and n in ctx.array_elems and n != name)
     if not sym and twins and draw(st.integers(0, 2)) == 0:
         # same elements as an earlier array in another shape (1 x n, n x 1, transposed shape, ...)
